@@ -15,7 +15,7 @@ package main
 //	         plants = off:hex,off:hex…  (bytes planted into the filler)
 //	result : off=<pos|none> <exit=<rc> files=ok | fall | fail | misfound | …>
 //
-//	payload: proc <tree> <rc> <arg-hex,…|->   (the real CLI binary of the tree under test, packed,
+//	payload: proc <tree> <rc> <arg-hex,…|-> <abs|bare|decoy|rel|dotdot|symlink>   (the real CLI binary of the tree under test, packed,
 //	         started as a child process with these arguments, stdin at EOF)
 //	result : proc srcmarker=<0|1> exit=<code> entry=<ran|notrun> clean=<0|1>
 //
@@ -25,6 +25,7 @@ package main
 import (
 	"bytes"
 	"context"
+	"flag"
 	"fmt"
 	"go/ast"
 	"go/parser"
@@ -66,6 +67,9 @@ type c20Facts struct {
 	problems     []string // pieces of the source the extractor could not translate
 	mainFirst    bool     // first statement of main() is the unconditional call tool.RunPackedBinary()
 	mainSrc      string
+	usesOsExe    bool // the file to scan is determined with os.Executable()
+	usesOsExeSrc string
+	markerByCall bool // packmarker is built by a function call at run time (not a constant expression the compiler folds)
 	truncates    bool // Pack opens the target so that old content is discarded (os.Create / O_TRUNC)
 	truncSrc     string
 }
@@ -681,6 +685,52 @@ func c20Extract() (*c20Facts, error) {
 	}
 	f.skipTab = skipTab
 
+	// which file is scanned: os.Executable() (directly or through a package variable holding it) in the
+	// functions reachable from RunPackedBinary; otherwise filepath.Abs(osArgs[0]) must be there
+	f.usesOsExe, f.usesOsExeSrc = true, "NOT TRANSLATED: reference value"
+	{
+		isOsExe := func(x ast.Expr) bool {
+			sel, ok := x.(*ast.SelectorExpr)
+			if !ok || sel.Sel.Name != "Executable" {
+				return false
+			}
+			id, ok := sel.X.(*ast.Ident)
+			return ok && id.Name == "os"
+		}
+		foundExe, foundAbs := "", ""
+		for _, fd := range order {
+			ast.Inspect(fd.Body, func(n ast.Node) bool {
+				c, ok := n.(*ast.CallExpr)
+				if !ok {
+					return true
+				}
+				if isOsExe(c.Fun) {
+					foundExe = text(c)
+				}
+				if id, ok := c.Fun.(*ast.Ident); ok {
+					if v, ok := ev.vars[id.Name]; ok && isOsExe(v) {
+						foundExe = text(c) + " (" + id.Name + " = os.Executable)"
+					}
+				}
+				if sel, ok := c.Fun.(*ast.SelectorExpr); ok && sel.Sel.Name == "Abs" && len(c.Args) == 1 && strings.Contains(text(c.Args[0]), "osArgs[0]") {
+					foundAbs = text(c)
+				}
+				return true
+			})
+		}
+		switch {
+		case foundExe != "":
+			f.usesOsExe, f.usesOsExeSrc = true, foundExe
+		case foundAbs != "":
+			f.usesOsExe, f.usesOsExeSrc = false, foundAbs+" only"
+		default:
+			problem("how RunPackedBinary determines the file to scan was not recognised")
+		}
+	}
+	if pm, ok := ev.vars["packmarker"]; ok {
+		_, f.markerByCall = pm.(*ast.CallExpr)
+	}
+
 	// Pack: how the target file is opened for writing — os.Create truncates, os.OpenFile only with O_TRUNC
 	f.truncates, f.truncSrc = true, "NOT TRANSLATED: reference value"
 	if pk, ok := methods["Pack"]; !ok {
@@ -838,6 +888,9 @@ func c20LeanFile(f *c20Facts) string {
 		strings.ReplaceAll(strings.ReplaceAll(f.mainSrc, "-/", "- /"), "/-", "/ -"), f.mainFirst)
 	fmt.Fprintf(&b, "/-- Pack: is the target opened so that its old content is discarded (`os.Create`, or `os.OpenFile` with\n    `O_TRUNC`)? Found: `%s` -/\ndef targetOpenTruncates : Bool := %v\n\n",
 		strings.ReplaceAll(strings.ReplaceAll(f.truncSrc, "-/", "- /"), "/-", "/ -"), f.truncates)
+	fmt.Fprintf(&b, "/-- is the file to scan determined with `os.Executable()`? Found: `%s` -/\ndef locateUsesOsExecutable : Bool := %v\n\n",
+		strings.ReplaceAll(strings.ReplaceAll(f.usesOsExeSrc, "-/", "- /"), "/-", "/ -"), f.usesOsExe)
+	fmt.Fprintf(&b, "/-- is `packmarker` the result of a function call at run time (not a constant expression, which the\n    compiler would fold into one literal inside the interpreter binary)? -/\ndef markerBuiltByCall : Bool := %v\n\n", f.markerByCall)
 	b.WriteString("end Ecal.Gen.C20\n")
 	return b.String()
 }
@@ -936,6 +989,10 @@ type c20Tree struct {
 	dir   string            // directory on disk
 	files map[string]string // zip path -> content
 	entry string            // entry program template; %d is replaced by the number to return
+	// refuse: the pack tool must not build an executable from this tree but report an error (a root
+	// file with the reserved name .ecalsrc-entry; a symbolic link it cannot pack as a file)
+	refuse bool
+	ignore map[string]bool // archive members that are not compared (the target file itself when it lies inside the project)
 	// what the entry returns for rc
 }
 
@@ -996,14 +1053,31 @@ func c20Setup() {
 			"x := %d\nx\n"},
 		// 5: many small files in many directories
 		{c20Many(), "x := %d\nx\n"},
+		// 6: a root file with the name the archive reserves for the entry (an impostor that would
+		//    return 99) — the pack tool has to refuse the project; in a sub directory it is harmless
+		{map[string]string{".ecalsrc-entry": "log(\"IMPOSTOR\")\n99\n", "sub/.ecalsrc-entry": "harmless", "main.ecal": "1\n"}, "x := %d\nx\n"},
+		// 7: the reserved name only in a sub directory: an ordinary project
+		{map[string]string{"sub/.ecalsrc-entry": "harmless", "lib/a.ecal": lib}, "import \"lib/a.ecal\" as a\na.add(%d, 0)\n"},
+		// 8: a symbolic link to a directory (see links below): cannot be packed as a file — refuse
+		{map[string]string{"real/x.ecal": lib, "main.ecal": "1\n"}, "x := %d\nx\n"},
+		// 9: a dangling symbolic link, followed (in name order) by other entries — refuse
+		{map[string]string{"a.txt": "a", "z/last.txt": "z"}, "x := %d\nx\n"},
 	}
+	links := map[int]map[string]string{8: {"alink": "real"}, 9: {"blink": "nowhere", "y/inner": "../missing"}}
 	for k, s := range specs {
 		t := &c20Tree{dir: filepath.Join(c20Scratch, fmt.Sprintf("tree%d", k)), files: s.files, entry: s.entry}
+		_, collides := s.files[".ecalsrc-entry"]
+		t.refuse = collides || len(links[k]) > 0
 		check(os.MkdirAll(t.dir, 0755))
 		for name, content := range s.files {
 			p := filepath.Join(t.dir, filepath.FromSlash(name))
 			check(os.MkdirAll(filepath.Dir(p), 0755))
 			check(os.WriteFile(p, []byte(content), 0644))
+		}
+		for name, dest := range links[k] {
+			p := filepath.Join(t.dir, filepath.FromSlash(name))
+			check(os.MkdirAll(filepath.Dir(p), 0755))
+			check(os.Symlink(dest, p))
 		}
 		// an empty directory: not a file, must not disturb anything
 		check(os.MkdirAll(filepath.Join(t.dir, "emptydir", "nested"), 0755))
@@ -1094,7 +1168,10 @@ func c20CLIPath() (string, error) {
 // result: `proc srcmarker=<0|1> exit=<code> entry=<ran|notrun> clean=<0|1>` — clean: nothing
 // but the entry's own log line was printed (no usage text, prompt or error of the plain CLI).
 func c20RunProc(fs []string) string {
-	if len(fs) != 4 {
+	form := "abs"
+	if len(fs) == 5 {
+		form = fs[4]
+	} else if len(fs) != 4 {
 		return "bad-payload"
 	}
 	treeNo, _ := strconv.Atoi(fs[1])
@@ -1148,8 +1225,34 @@ func c20RunProc(fs []string) string {
 	os.Chmod(dst, 0755)
 	ctx, cancel := context.WithTimeout(context.Background(), 6*time.Second) // below the per-case limit
 	defer cancel()
+	// how the executable is started: what argv[0] and the working directory look like
 	cmd := exec.CommandContext(ctx, dst, args...)
 	cmd.Dir = cwd
+	switch form {
+	case "abs": // absolute path
+	case "bare", "decoy": // found through $PATH by a shell: argv[0] is the bare name, cwd is elsewhere
+		cmd.Args[0] = filepath.Base(dst)
+		if form == "decoy" { // … and the cwd has an unrelated file of the same name
+			if err := os.WriteFile(filepath.Join(cwd, filepath.Base(dst)), []byte("an unrelated file\n"), 0644); err != nil {
+				return "ERR " + oneLine(err.Error())
+			}
+		}
+	case "rel": // ./app.bin from its directory
+		cmd = exec.CommandContext(ctx, "./"+filepath.Base(dst), args...)
+		cmd.Dir = filepath.Dir(dst)
+	case "dotdot": // cwd/../app.bin
+		cmd = exec.CommandContext(ctx, "cwd/../"+filepath.Base(dst), args...)
+		cmd.Dir = filepath.Dir(dst)
+	case "symlink": // through a symbolic link with another name in another directory
+		link := filepath.Join(cwd, "link-to-app")
+		if err := os.Symlink(dst, link); err != nil {
+			return "ERR " + oneLine(err.Error())
+		}
+		cmd = exec.CommandContext(ctx, link, args...)
+		cmd.Dir = cwd
+	default:
+		return "bad-payload"
+	}
 	cmd.Stdin = strings.NewReader("")
 	cmd.Env = append(os.Environ(), "HOME="+cwd)
 	out, err := cmd.CombinedOutput()
@@ -1179,6 +1282,223 @@ func c20RunProc(fs []string) string {
 
 // ---------------------------------------------------------------- one case
 
+// c20RunOut: payload `out <variant> <n> <k> <rc>` — what happens AFTER the scan (model: `outcome`):
+// ok | badzip (end record destroyed) | emptyzip (file ends after the marker) | parseerr | rterr
+// (runtime error: printed, exit 0) | string (result is not a number: exit 0) | float (7.9 -> 7) | negative.
+// result: out off=<pos> <exit=<rc>|fail|fall>
+func c20RunOut(fs []string) string {
+	if len(fs) != 5 {
+		return "bad-payload"
+	}
+	variant := fs[1]
+	n, _ := strconv.Atoi(fs[2])
+	k, _ := strconv.Atoi(fs[3])
+	rc, _ := strconv.Atoi(fs[4])
+	entryText := fmt.Sprintf("x := %d\nx\n", rc)
+	switch variant {
+	case "parseerr":
+		entryText = "x := := 1\n"
+	case "rterr":
+		entryText = "raise(\"boom\")\n"
+	case "string":
+		entryText = "\"abc\"\n"
+	case "float":
+		entryText = fmt.Sprintf("%d.9\n", rc)
+	case "negative":
+		entryText = fmt.Sprintf("0 - %d\n", rc)
+	}
+	src := filepath.Join(c20Scratch, "out-source.bin")
+	dst := filepath.Join(c20Scratch, "out-packed.bin")
+	entry := filepath.Join(c20Scratch, "out-entry.ecal")
+	defer os.Remove(src)
+	defer os.Remove(dst)
+	bin := make([]byte, n)
+	c20Fill(bin, k, 0)
+	if os.WriteFile(src, bin, 0644) != nil || os.WriteFile(entry, []byte(entryText), 0644) != nil {
+		return "ERR write"
+	}
+	p := tool.NewCLIPacker()
+	p.LogOut = io.Discard
+	p.Dir, p.SourceBinary, p.TargetBinary, p.EntryFile = &c20Trees[0].dir, &src, &dst, entry
+	if err := p.Pack(); err != nil {
+		return "ERR pack " + oneLine(err.Error())
+	}
+	start := n + len(c20FactsCached().marker)
+	switch variant {
+	case "badzip":
+		data, _ := os.ReadFile(dst)
+		for i := len(data) - 22; i < len(data); i++ {
+			data[i] = 0
+		}
+		os.WriteFile(dst, data, 0755)
+	case "emptyzip":
+		os.Truncate(dst, int64(start))
+	}
+	r := strings.Split(c20ExecInProcess(dst, int64(start), c20Trees[0], 0, entryText), " ")
+	if len(r) < 2 {
+		return "out " + strings.Join(r, " ")
+	}
+	if r[0] == "off=none" {
+		return "out " + r[1]
+	}
+	return "out " + r[0] + " " + r[1]
+}
+
+// c20RandomTree builds a random project under dir: names with spaces, UTF-8, ':', '\\', quotes, long
+// names; depth up to 5; empty, small, block-sized and large files, some containing the marker.
+func c20RandomTree(r *Rand, dir string, maxFiles int) map[string]string {
+	names := []string{"a", "b.ecal", "with space", "ü", "x:y", "back\\slash", "-dash", ".dot", "UPPER", "#hash", "%25", "'q'", "\"dq\"",
+		"tab\there", strings.Repeat("long", 40), "日本", "a.b.c", "~tilde", "{brace}", "semi;colon", "amp&", "star*", "q?"}
+	files := map[string]string{}
+	nf := 1 + r.Intn(maxFiles)
+	marker := string(c20FactsCached().marker)
+	for i := 0; i < nf; i++ {
+		depth := r.Intn(6)
+		var parts []string
+		for d := 0; d < depth; d++ {
+			parts = append(parts, "d"+names[r.Intn(len(names))])
+		}
+		parts = append(parts, fmt.Sprintf("f%d-%s", i, names[r.Intn(len(names))]))
+		name := strings.Join(parts, "/")
+		var size int
+		switch r.Intn(10) {
+		case 0:
+			size = 0
+		case 1, 2, 3, 4:
+			size = r.Intn(200)
+		case 5, 6:
+			size = 4000 + r.Intn(300)
+		case 7, 8:
+			size = r.Intn(20000)
+		default:
+			size = 60000 + r.Intn(250000)
+		}
+		b := make([]byte, size)
+		c20Fill(b, 1+r.Intn(2), r.U64()%2147483648)
+		if r.Intn(6) == 0 && size > len(marker) {
+			copy(b[r.Intn(size-len(marker)):], marker)
+		}
+		files[name] = string(b)
+	}
+	for name, content := range files {
+		p := filepath.Join(dir, filepath.FromSlash(name))
+		check(os.MkdirAll(filepath.Dir(p), 0755))
+		check(os.WriteFile(p, []byte(content), 0644))
+	}
+	return files
+}
+
+// c20RunRandomTree: payload `rt <seed> <n> <k> <rc> <args|cli>` — a random project tree with the entry
+// file INSIDE the project (the normal use), for some seeds also source and/or target inside it, packed
+// through the tool's OWN COMMAND LINE: `args` = CLIPacker.ParseArgs in-process from
+// `<source> pack -dir D [-source S] -target T entry`; `cli` = the real CLI as child process,
+// `ecal-cli pack -target T entry` started IN the project directory (default -dir = cwd, default
+// -source = the CLI itself). Then run in-process.
+// result: rt off=<pos|cli+k> exit=<rc> files=ok | …
+func c20RunRandomTree(fs []string) string {
+	if len(fs) != 6 {
+		return "bad-payload"
+	}
+	seed, _ := strconv.ParseUint(fs[1], 10, 64)
+	n, _ := strconv.Atoi(fs[2])
+	k, _ := strconv.Atoi(fs[3])
+	rc, _ := strconv.Atoi(fs[4])
+	via := fs[5]
+	r := NewRand(seed)
+	root := filepath.Join(c20Scratch, "rt")
+	os.RemoveAll(root)
+	dir := filepath.Join(root, "project")
+	check(os.MkdirAll(dir, 0755))
+	defer os.RemoveAll(root)
+	files := c20RandomTree(r, dir, 40)
+	tree := &c20Tree{dir: dir, files: files, ignore: map[string]bool{}}
+	// the entry inside the project
+	entryRel := []string{"main.ecal", "src/main.ecal", "a/b/c/start.ecal"}[r.Intn(3)]
+	entryText := fmt.Sprintf("x := %d\nx\n", rc)
+	entry := filepath.Join(dir, filepath.FromSlash(entryRel))
+	check(os.MkdirAll(filepath.Dir(entry), 0755))
+	check(os.WriteFile(entry, []byte(entryText), 0644))
+	files[entryRel] = entryText
+	src := filepath.Join(root, "interpreter.bin")
+	dst := filepath.Join(root, "app.bin")
+	srcLen := n
+	if via == "args" {
+		bin := make([]byte, n)
+		c20Fill(bin, k, 0)
+		if r.Intn(4) == 0 { // the source binary lies inside the project
+			src = filepath.Join(dir, "interpreter.bin")
+			files["interpreter.bin"] = string(bin)
+		}
+		check(os.WriteFile(src, bin, 0755))
+	}
+	if r.Intn(4) == 0 { // the target lies inside the project: it packs (a part of) itself
+		dst = filepath.Join(dir, "out.bin")
+		tree.ignore["out.bin"] = true
+	}
+	switch via {
+	case "args":
+		args := []string{src, "pack", "-dir", dir}
+		if r.Intn(2) == 0 {
+			args = append(args, "-source", src) // otherwise the default: the running binary = osArgs[0]
+		}
+		args = append(args, "-target", dst, entry)
+		flag.CommandLine = flag.NewFlagSet("harness", flag.ContinueOnError)
+		flag.CommandLine.SetOutput(io.Discard)
+		old := tool.VerifSetOsArgs(args)
+		p := tool.NewCLIPacker()
+		p.LogOut = io.Discard
+		err := p.Pack()
+		tool.VerifSetOsArgs(old)
+		if err != nil {
+			return "rt pack-error " + oneLine(err.Error())
+		}
+	case "cli":
+		cli, err := c20CLIPath()
+		if err != nil {
+			return "ERR " + oneLine(err.Error())
+		}
+		st, err := os.Stat(cli)
+		if err != nil {
+			return "ERR " + oneLine(err.Error())
+		}
+		srcLen = int(st.Size())
+		ctx, cancel := context.WithTimeout(context.Background(), 6*time.Second)
+		defer cancel()
+		cmd := exec.CommandContext(ctx, cli, "pack", "-target", dst, entryRel)
+		cmd.Dir = dir
+		cmd.Stdin = strings.NewReader("")
+		out, err := cmd.CombinedOutput()
+		if ctx.Err() != nil {
+			return "HANG child process did not end within 6s"
+		}
+		if err != nil || strings.Contains(string(out), "Error:") {
+			return "rt pack-error " + oneLine(string(out))
+		}
+	default:
+		return "bad-payload"
+	}
+	res := c20ExecInProcess(dst, int64(srcLen+len(c20FactsCached().marker)), tree, -1, entryText)
+	if via == "cli" && strings.HasPrefix(res, "off=") && !strings.HasPrefix(res, "off=none") {
+		var pos int
+		fmt.Sscanf(res, "off=%d", &pos)
+		res = fmt.Sprintf("off=cli+%d", pos-srcLen) + res[strings.Index(res, " "):]
+	}
+	return "rt " + res
+}
+
+// c20TreeNo parses the tree field: a number, followed by `r` if the pack tool has to refuse the tree.
+func c20TreeNo(s string) int {
+	n, _ := strconv.Atoi(strings.TrimSuffix(s, "r"))
+	return n
+}
+
+func c20TreeTok(t int) string {
+	if c20Trees[t].refuse {
+		return fmt.Sprintf("%dr", t)
+	}
+	return fmt.Sprint(t)
+}
+
 func c20Run(payload string) string {
 	fs := strings.Split(payload, " ")
 	if fs[0] == "proc" {
@@ -1186,6 +1506,12 @@ func c20Run(payload string) string {
 	}
 	if fs[0] == "seq" {
 		return c20RunSeq(fs)
+	}
+	if fs[0] == "out" {
+		return c20RunOut(fs)
+	}
+	if fs[0] == "rt" {
+		return c20RunRandomTree(fs)
 	}
 	if len(fs) != 9 {
 		return "bad-payload"
@@ -1196,7 +1522,7 @@ func c20Run(payload string) string {
 	seed, _ := strconv.ParseUint(fs[3], 10, 64)
 	plants := c20ParsePlants(fs[4])
 	ws := unhx(fs[5])
-	treeNo, _ := strconv.Atoi(fs[6])
+	treeNo := c20TreeNo(fs[6])
 	rc, _ := strconv.Atoi(fs[7])
 	zip4 := unhx(fs[8])
 	tree := c20Trees[treeNo]
@@ -1231,7 +1557,9 @@ func c20Run(payload string) string {
 		p.LogOut = io.Discard
 		p.Dir, p.SourceBinary, p.TargetBinary, p.EntryFile = &tree.dir, &src, &dst, entry
 		if err := p.Pack(); err != nil {
-			return "ERR pack " + oneLine(err.Error())
+			// the pack tool reported an error instead of building an executable
+			CountRun("pack refused")
+			return "pack-refused"
 		}
 		exe = dst
 		data, err := os.ReadFile(dst)
@@ -1290,6 +1618,10 @@ func c20ExecInProcess(exe string, trueStart int64, tree *c20Tree, treeNo int, en
 			// not the archive Pack wrote: whatever the zip reader makes of it is not compared
 			return off + " misfound"
 		}
+		// the section handed to the zip reader ends at the end of the file (archive_exact)
+		if st, err := os.Stat(exe); err != nil || c20Hook.pos+c20Hook.len != st.Size() {
+			return off + fmt.Sprintf(" section-length:%d", c20Hook.len)
+		}
 	}
 	switch {
 	case failed != "":
@@ -1310,12 +1642,19 @@ func c20ExecInProcess(exe string, trueStart int64, tree *c20Tree, treeNo int, en
 	if !c20Hook.filesHit {
 		return res + " files=unobserved"
 	}
-	want := map[string]string{".ecalsrc-entry": entryText}
+	want := map[string]string{}
 	for k, v := range tree.files {
 		want[k] = v
 	}
-	if len(c20Hook.files) != len(want) {
-		return res + fmt.Sprintf(" files=count:%d/%d", len(c20Hook.files), len(want))
+	want[".ecalsrc-entry"] = entryText // the entry is what runs, whatever the tree contains
+	got := 0
+	for k := range c20Hook.files {
+		if !tree.ignore[k] {
+			got++
+		}
+	}
+	if got != len(want) {
+		return res + fmt.Sprintf(" files=count:%d/%d", got, len(want))
 	}
 	names := make([]string, 0, len(want))
 	for k := range want {
@@ -1331,7 +1670,11 @@ func c20ExecInProcess(exe string, trueStart int64, tree *c20Tree, treeNo int, en
 			return res + " files=differs:" + hx(k)
 		}
 	}
-	CountRun(fmt.Sprintf("files-compared tree%d", treeNo))
+	if treeNo < 0 {
+		CountRun("files-compared random tree")
+	} else {
+		CountRun(fmt.Sprintf("files-compared tree%d", treeNo))
+	}
 	return res + " files=ok"
 }
 
@@ -1535,7 +1878,7 @@ func c20Gen(g *Gen) {
 			seed = g.R.U64() % 2147483648
 		}
 		g.Count(class)
-		g.Emit(fmt.Sprintf("%s %d %d %d %s %s %d %d %s", pk, n, kind, seed, c20PlantStr(plants), hx(ws), tree, rc, c20Zip4))
+		g.Emit(fmt.Sprintf("%s %d %d %d %s %s %s %d %s", pk, n, kind, seed, c20PlantStr(plants), hx(ws), c20TreeTok(tree), rc, c20Zip4))
 	}
 	// strides: the first window is bufSize long, every later one advances by bufSize-keep;
 	// the scanner before the repair advanced by b1 or b1+b2. Cover two periods of the
@@ -1592,7 +1935,16 @@ func c20Gen(g *Gen) {
 				as = strings.Join(hs, ",")
 			}
 			g.Count("real process")
-			g.Emit(fmt.Sprintf("proc %d %d %s", t, 20+ti*40+ai, as))
+			g.Emit(fmt.Sprintf("proc %d %d %s abs", t, 20+ti*40+ai, as))
+		}
+	}
+	// … and the ways an executable gets started: found through $PATH (bare argv[0], the working
+	// directory is elsewhere, with and without an unrelated file of the same name there), relative
+	// paths, a symbolic link
+	for fi, form := range []string{"bare", "decoy", "rel", "dotdot", "symlink"} {
+		for ai, as := range []string{"-", hx("run")} {
+			g.Count("real process, start form " + form)
+			g.Emit(fmt.Sprintf("proc %d %d %s %s", 1-ai, 150+fi*2+ai, as, form))
 		}
 	}
 	// 1c. sequences: the target already exists (an earlier, other project packed into it, or an
@@ -1629,6 +1981,28 @@ func c20Gen(g *Gen) {
 		}
 		g.Count("sequence")
 		g.Emit(fmt.Sprintf("seq %s %o %d %d %d %d %s", sc.first, sc.mode, sc.n2, sc.k2, sc.t2, 30+i, p))
+	}
+	// 1d. after the scan: zip error, parse error, runtime error, non-numeric / fractional / negative result
+	for vi, v := range []string{"ok", "badzip", "emptyzip", "parseerr", "rterr", "string", "float", "negative"} {
+		for _, n := range []int{0, f.bufSize - 1, 2*f.bufSize + 5} {
+			g.Count("after the scan: " + v)
+			g.Emit(fmt.Sprintf("out %s %d %d %d", v, n, vi%2, 5+vi))
+		}
+	}
+	// 1e. random project trees (entry inside the project, sometimes source/target inside it) packed through
+	//     the tool's own command line: ParseArgs in-process, and the real CLI as a child process
+	nRT, nRTcli := 60, 4
+	if amplified {
+		nRT, nRTcli = 500, 20
+	}
+	for i := 0; i < nRT; i++ {
+		sizes := []int{0, 17, f.b1 - 1, f.bufSize - len(M) + 1, f.bufSize, 2*f.bufSize - f.keep - 1, 3 * f.bufSize}
+		g.Count("random tree via ParseArgs")
+		g.Emit(fmt.Sprintf("rt %d %d %d %d args", g.R.U64()%1000000007, sizes[i%len(sizes)]+g.R.Intn(3), g.R.Intn(2), 1+i%200))
+	}
+	for i := 0; i < nRTcli; i++ {
+		g.Count("random tree via the real CLI's command line")
+		g.Emit(fmt.Sprintf("rt %d -1 0 %d cli", g.R.U64()%1000000007, 3+i))
 	}
 	// 2. project trees on binaries whose end lies around the block boundaries
 	for t := range c20Trees {
